@@ -127,6 +127,28 @@ Proof.
   destruct (gsexec_perm _ [] [] _ _ _ HPp E2) as (q' & E' & _). exists q'. exact E'.
 Qed.
 
+Lemma anc_at_ss : forall (l l' : list cblk) fuel i h,
+    same_static (map core l) (map core l') -> anc_at ccmd l' fuel i h = anc_at ccmd l fuel i h.
+Proof.
+  intros l l' fuel. induction fuel as [|f IH]; intros i h S; cbn;
+    pose proof (S i) as Si; unfold sfind in Si; rewrite !cfind_core in Si;
+    destruct (bfind l i) as [b|], (bfind l' i) as [b'|]; cbn in Si; try discriminate; try reflexivity;
+    inversion Si as [[Hp Hh]]; change (e_h (core b')) with (b_h ccmd b') in Hh; change (e_h (core b)) with (b_h ccmd b) in Hh;
+    change (e_par (core b')) with (b_par ccmd b') in Hp; change (e_par (core b)) with (b_par ccmd b) in Hp; rewrite Hh; try reflexivity.
+  rewrite Hp. destruct (Z.eqb (b_h ccmd b) h); [reflexivity|]. destruct (Z.ltb (b_h ccmd b) h); [reflexivity|]. apply IH. exact S.
+Qed.
+
+Lemma oac_ss : forall s s' x,
+    same_static (cores s) (cores s') -> tip _ _ s' = tip _ _ s -> length (blocks _ _ s') = length (blocks _ _ s) ->
+    on_active_chain pstate ccmd s' x = on_active_chain pstate ccmd s x.
+Proof.
+  intros s s' x S T L. unfold on_active_chain, fuel_of. rewrite T, L.
+  pose proof (S x) as Sx. unfold sfind, cores in Sx. rewrite !cfind_core in Sx.
+  destruct (bfind (blocks pstate ccmd s) x) as [b|], (bfind (blocks pstate ccmd s') x) as [b'|]; cbn in Sx; try discriminate; try reflexivity.
+  inversion Sx as [[Hp Hh]]. change (e_h (core b')) with (b_h ccmd b') in Hh. change (e_h (core b)) with (b_h ccmd b) in Hh. rewrite Hh.
+  rewrite (anc_at_ss _ _ _ _ _ S). reflexivity.
+Qed.
+
 (** ** the state while the candidate chain is applied next to the active chain *)
 Section Twin.
   Variable base : pstate.
@@ -519,5 +541,51 @@ Section Twin.
       rewrite Pc, parent_up_t.
       destruct (IH s1 (S ia) ib f T1 ltac:(lia) ltac:(lia)) as (s' & E' & T').
       exists s'. split; [exact E'|exact T'].
+  Qed.
+
+  (** ** applying the candidate branch next to the active chain *)
+  Definition path_from (ib : nat) : list N := rev (map (fun i => up l0 i c) (seq 0 ib)).
+  Lemma path_from_S : forall ib, path_from (S ib) = up l0 ib c :: path_from ib.
+  Proof. intros ib. unfold path_from. rewrite seq_S, map_app, rev_app_distr. reflexivity. Qed.
+
+  Lemma twin_oac : forall s i, frame s0 s -> (i < kb)%nat -> on_active_chain pstate ccmd s (up l0 i c) = false.
+  Proof.
+    intros s i F Hi. rewrite (oac_ss s0 s _ (fr_static _ _ F) (fr_tip _ _ F) (twin_blocks_len s F)).
+    destruct (up_c_found i ltac:(lia)) as (ei & Hei). destruct (core_find _ _ _ Hei) as (bi & Fbi & Cbi).
+    unfold on_active_chain. rewrite Fbi.
+    assert (Hbh : b_h ccmd bi = hgt l0 (up l0 i c)) by (unfold hgt; rewrite Hei, <- Cbi; reflexivity).
+    rewrite Hbh.
+    destruct (anc_at ccmd (blocks pstate ccmd s0) (fuel_of pstate ccmd s0) t (hgt l0 (up l0 i c))) as [a|] eqn:Ea; [|reflexivity].
+    apply N.eqb_neq. intro Heq. subst a.
+    exact (above_fork_not_active_chain s0 t c fork ka kb i W0 K0 t_found (ex_intro _ _ Hc) Hf1 Hf2 Ka Kb Hmax Hi _ Ea).
+  Qed.
+
+  Lemma twin_apply_path : forall ib s ia, (ib <= kb)%nat -> twin s ia ib ->
+      (forall i, (i < ib)%nat -> exists b, bfind (blocks _ _ s) (up l0 i c) = Some b /\ is_failed _ b = false) ->
+      exists s' ok, apply_path pstate ccmd cexec cunexec s fork (path_from ib) = Ok (s', ok) /\
+                    (ok = true -> twin s' ia 0) /\
+                    (ok = false -> twin s' ia kb /\ exists i, (i < ib)%nat /\ failed_in s' (up l0 i c)).
+  Proof.
+    induction ib as [|ib IH]; intros s ia Hib T Hnf.
+    - exists s, true. cbn. split; [reflexivity|]. split; [intros _; exact T|discriminate].
+    - rewrite path_from_S. destruct (Hnf ib ltac:(lia)) as (b & Fb & Hf).
+      pose proof T as (F & G & _).
+      destruct (twin_applyB s ia ib b T Fb Hf (twin_oac s ib F ltac:(lia))) as (s1 & ok1 & E1 & Ht1 & Hf1').
+      cbn [apply_path]. change (applyBlock pstate ccmd cexec cunexec s (up l0 ib c)) with (c_applyBlock s (up l0 ib c)). rewrite E1. cbn [bind].
+      assert (HSb : map (static ccmd) (blocks _ _ s1) = map (static ccmd) (blocks _ _ s))
+        by exact (staticInv_apply _ _ _ _ _ (eq_refl : staticInv (map (static ccmd) (blocks _ _ s)) s) E1).
+      destruct ok1.
+      + specialize (Ht1 eq_refl).
+        destruct (IH s1 ia ltac:(lia) Ht1) as (s' & ok & E' & Ht' & Hf').
+        { intros i Hi. destruct (Hnf i ltac:(lia)) as (bi & Fbi & Hfi). destruct (static_find _ _ _ bi HSb Fbi) as (bi1 & Fbi1).
+          exists bi1. split; [exact Fbi1|]. rewrite (apply_ok_flags _ _ _ _ _ _ E1 Fbi Fbi1). exact Hfi. }
+        exists s', ok. split; [exact E'|]. split; [exact Ht'|]. intros Hok. destruct (Hf' Hok) as (Tk & (i & Hi & Fi)). split; [exact Tk|]. exists i. split; [lia|exact Fi].
+      + destruct (Hf1' eq_refl) as (T1 & Fx1). pose proof T1 as (F1 & G1 & _).
+        destruct (twin_find s1 (up l0 ib c) F1 (up_c_found ib ltac:(lia))) as (bx & Fx & Px & _). rewrite Fx, Px, parent_up_c.
+        destruct (twin_unapplyB_range s1 ia (S ib) T1) as (s2 & E2 & T2).
+        rewrite E2. cbn [bind]. exists s2, false. split; [reflexivity|]. split; [discriminate|]. intros _. split; [exact T2|].
+        exists ib. split; [lia|]. destruct Fx1 as (bx1 & Fbx1 & Hfx1).
+        pose proof (md_unapply_range _ _ _ _ E2) as M2. destruct (static_find _ _ _ bx1 (proj1 M2) Fbx1) as (bx2 & Fbx2).
+        exists bx2. split; [exact Fbx2|]. rewrite (proj1 (md_nobody_failed _ _ _ _ _ M2 Fbx1 Fbx2)). exact Hfx1.
   Qed.
 End Twin.
